@@ -1,4 +1,5 @@
-import Pushr.Vector
+import Pushr.Full
+import Pushr.Spec.C09
 /-! # C09 — vector instructions follow the README rules for lengths, offsets and indices
 
 `overlap_loop_eq_spec`: the element-wise loop as written (in-place update of the second vector while
@@ -171,6 +172,233 @@ theorem sortF32_sorted (v : List Float32) : (sortF32 v).Pairwise (fun a b => tot
     (fun a b c hab hbc => by simp only [decide_eq_true_eq] at *; omega)
     (fun a b => by simp only [Bool.or_eq_true, decide_eq_true_eq]; omega) v
   simpa [sortF32] using this
+
+/-! ## every remaining vector instruction meets its closed form (`Spec/C09.vecExpect`)
+
+`tab n f` is the vector of length `n` whose `j`-th element is `f j` (`tab_length`, `tab_getElem?`), so each
+statement below says what the length of the result is and what every single element is. -/
+
+
+theorem tab_length (n : Nat) (f : Nat → α) : (tab n f).length = n := by simp [tab]
+
+theorem tab_getElem? (n : Nat) (f : Nat → α) (j : Nat) : (tab n f)[j]? = if j < n then some (f j) else none := by
+  unfold tab
+  by_cases h : j < n
+  · simp [h]
+  · simp [h]
+
+theorem eq_tab (v : List α) (f : Nat → α) (h : ∀ j, j < v.length → v[j]? = some (f j)) : v = tab v.length f := by
+  apply List.ext_getElem?
+  intro j
+  rw [tab_getElem?]
+  by_cases hj : j < v.length
+  · rw [if_pos hj, h j hj]
+  · rw [if_neg hj]; exact List.getElem?_eq_none (by omega)
+
+theorem replicate_eq_tab (n : Nat) (x : α) : List.replicate n x = tab n (fun _ => x) := by
+  have := eq_tab (List.replicate n x) (fun _ => x) (by
+    intro j hj
+    simp at hj
+    simp [hj])
+  simpa using this
+
+theorem rotateIn_eq_spec (v : List α) (x : α) : rotateIn v x = rotateSpec v x := by
+  cases v with
+  | nil => simp [rotateIn, rotateSpec, tab]
+  | cons a t =>
+    unfold rotateSpec
+    have h := eq_tab (rotateIn (a :: t) x) (fun j => (a :: t).getD (j + 1) x) (by
+      intro j hj
+      simp only [rotateIn, List.length_append, List.length_cons, List.length_nil] at hj
+      simp only [rotateIn, List.getD_eq_getElem?_getD, List.getElem?_cons_succ]
+      by_cases h1 : j < t.length
+      · rw [List.getElem?_append_left h1, List.getElem?_eq_getElem h1]; rfl
+      · have : j = t.length := by omega
+        subst this
+        simp)
+    rw [h]; simp [rotateIn]
+
+theorem vecSetAt_eq_spec (v : List α) (i : Int32) (x : α) : vecSetAt v i x = setSpec v i x := by
+  unfold vecSetAt setSpec
+  split
+  · next h => simp at h; subst h; simp [tab]
+  · have h := eq_tab (v.set (vecIdx v.length i) x) (fun j => if j = clampIdx v.length i then x else v.getD j x) (by
+      intro j hj
+      simp only [List.length_set] at hj
+      simp only [vecIdx, List.getElem?_set, List.getD_eq_getElem?_getD]
+      by_cases hji : clampIdx v.length i = j
+      · subst hji; simp [hj]
+      · have : ¬ j = clampIdx v.length i := fun h => hji h.symm
+        simp [hji, this, List.getElem?_eq_getElem hj])
+    rw [h]; simp
+
+theorem append_eq_spec (v : List α) (x : α) : v ++ [x] = appendSpec v x := by
+  unfold appendSpec
+  have h := eq_tab (v ++ [x]) (fun j => v.getD j x) (by
+    intro j hj
+    simp only [List.length_append, List.length_cons, List.length_nil] at hj
+    simp only [List.getD_eq_getElem?_getD]
+    by_cases h1 : j < v.length
+    · rw [List.getElem?_append_left h1, List.getElem?_eq_getElem h1]; rfl
+    · have : j = v.length := by omega
+      subst this; simp)
+  rw [h]; simp
+
+theorem map_eq_tab (v : List Float32) (f : Float32) : v.map (· * f) = tab v.length (fun j => v.getD j 0 * f) := by
+  have h := eq_tab (v.map (· * f)) (fun j => v.getD j 0 * f) (by
+    intro j hj
+    simp only [List.length_map] at hj
+    simp [List.getElem?_map, List.getElem?_eq_getElem hj])
+  rw [h]; simp
+
+theorem notLoop_eq_spec (v : List Bool) (off : Int) : notLoop v off = notSpec v off := by
+  unfold notSpec
+  have h := eq_tab (notLoop v off)
+    (fun j => if 0 ≤ (j : Int) - off ∧ (j : Int) - off < v.length then !(v.getD j false) else v.getD j false) (by
+    intro j hj
+    simp only [notLoop, List.length_map, List.length_zipIdx] at hj
+    simp only [notLoop, List.getElem?_map, List.getElem?_zipIdx, List.getElem?_eq_getElem hj, Option.map_some,
+      Nat.zero_add, List.getD_eq_getElem?_getD, Option.getD_some])
+  rw [h]; simp [notLoop]
+
+/-- the wrapping left fold equals the mathematical sum reduced into `i32` -/
+theorem foldl_add_eq (v : List Int32) (acc : Int32) :
+    v.foldl (· + ·) acc = Int32.ofInt (acc.toInt + (v.map Int32.toInt).sum) := by
+  induction v generalizing acc with
+  | nil => simp [Int32.ofInt_toInt]
+  | cons a t ih =>
+    simp only [List.foldl_cons, List.map_cons, List.sum_cons]
+    rw [ih]
+    simp only [Int32.ofInt_add, Int32.ofInt_toInt, Int32.add_assoc]
+
+theorem i32Sum_eq_spec (v : List Int32) : i32Sum v = sumSpec v := by
+  unfold i32Sum sumSpec
+  rw [foldl_add_eq]; simp
+
+theorem boolIndex_aux (v : List Bool) (k : Nat) :
+    ((v.zipIdx k).filterMap fun (b, i) => if b then some (lenI32 i) else none)
+      = ((List.range' k v.length).filter fun j => v.getD (j - k) false).map lenI32 := by
+  induction v generalizing k with
+  | nil => simp
+  | cons b t ih =>
+    rw [List.zipIdx_cons, List.length_cons, List.range'_succ]
+    have htail : (List.range' (k + 1) t.length).filter (fun j => (b :: t).getD (j - k) false)
+        = (List.range' (k + 1) t.length).filter (fun j => t.getD (j - (k + 1)) false) := by
+      apply List.filter_congr
+      intro j hj
+      rw [List.mem_range'] at hj
+      obtain ⟨i, _, hi⟩ := hj
+      have : j - k = (j - (k + 1)) + 1 := by omega
+      rw [this]; rfl
+    cases b with
+    | true =>
+      simp only [List.filterMap_cons, if_true, List.filter_cons, Nat.sub_self, List.getD_cons_zero, List.map_cons]
+      rw [ih (k + 1), htail]
+    | false =>
+      simp only [List.filterMap_cons, List.filter_cons, Nat.sub_self, List.getD_cons_zero]
+      rw [ih (k + 1), htail]
+      rfl
+
+theorem boolIndex_eq_spec (v : List Bool) :
+    (v.zipIdx.filterMap fun (b, i) => if b then some (lenI32 i) else none) = boolIndexSpec v := by
+  have := boolIndex_aux v 0
+  simpa [boolIndexSpec, List.range_eq_range'] using this
+
+theorem fromInt_eq_spec (n : Int32) (il : List Int32) :
+    ((il.take (clampIdx (il.length + 1) n)).reverse, il.drop (clampIdx (il.length + 1) n)) = fromIntSpec n il := by
+  have hk : clampIdx (il.length + 1) n = (max (min n.toInt il.length) 0).toNat := by
+    unfold clampIdx; congr 1; omega
+  unfold fromIntSpec
+  simp only [← hk]
+  have hle : clampIdx (il.length + 1) n ≤ il.length := by unfold clampIdx; omega
+  generalize clampIdx (il.length + 1) n = k at hle
+  have hlen : (il.take k).reverse.length = k := by simp; omega
+  have h := eq_tab ((il.take k).reverse) (fun j => il.getD (k - 1 - j) 0) (by
+    intro j hj
+    rw [hlen] at hj
+    rw [List.getElem?_reverse (by simp; omega), List.getElem?_take]
+    have h1 : (il.take k).length - 1 - j < k := by simp; omega
+    rw [if_pos h1]
+    have h2 : (il.take k).length = k := by simp; omega
+    rw [h2, List.getD_eq_getElem?_getD, List.getElem?_eq_getElem (by omega)]; rfl)
+  rw [hlen] at h
+  rw [← h]
+
+theorem count_eq (v : List Bool) : (v.filter id).length = v.count true := by
+  rw [List.count_eq_length_filter]; congr 1; apply List.filter_congr; intro x _; cases x <;> rfl
+
+theorem zeroDiv_eq (second top : List Float32) (off : Int) :
+    (top.zipIdx.any fun (t, i) =>
+        let j : Int := (i : Int) + off
+        decide (0 ≤ j) && decide (j.toNat < second.length) && t == 0)
+      = zeroDivisorInOverlap second top off := by
+  rw [Bool.eq_iff_iff]
+  unfold zeroDivisorInOverlap
+  simp only [List.any_eq_true, Bool.and_eq_true, decide_eq_true_eq, List.mem_range]
+  constructor
+  · rintro ⟨⟨t, i⟩, hm, ⟨h0, h1⟩, ht⟩
+    rw [List.mem_zipIdx_iff_getElem?] at hm
+    simp only at hm h0 h1 ht
+    refine ⟨((i : Int) + off).toNat, h1, by omega, ?_⟩
+    have : (((((i : Int) + off).toNat : Nat) : Int) - off).toNat = i := by omega
+    rw [this, hm]; exact ht
+  · rintro ⟨j, hj, h0, ht⟩
+    cases hq : top[((j : Int) - off).toNat]? with
+    | none => rw [hq] at ht; simp at ht
+    | some t =>
+      rw [hq] at ht
+      refine ⟨(t, ((j : Int) - off).toNat), ?_, ⟨?_, ?_⟩, ht⟩
+      · rw [List.mem_zipIdx_iff_getElem?]; exact hq
+      · simp only; omega
+      · simp only
+        have : ((((j : Int) - off).toNat : Nat) : Int) + off = j := by omega
+        rw [this]; simpa using hj
+
+
+theorem beq_list_i32 (a b : List Int32) : (a == b) = decide (a = b) := by
+  by_cases h : a = b <;> simp [h]
+
+theorem filter_ne_eq (v : List Int32) (x : Int32) :
+    List.filter (fun y => y != x) v = List.filter (fun y => !decide (y = x)) v := by
+  apply List.filter_congr; intro y _; by_cases h : y = x <;> simp [h, bne]
+
+theorem divOverlap_eq_spec (second top : List Float32) (off : Int) :
+    divOverlap second top off
+      = if zeroDivisorInOverlap second top off then none else some (overlapSpec (· / ·) second top off) := by
+  unfold divOverlap
+  simp only []
+  rw [← zeroDiv_eq, overlap_loop_eq_spec]
+
+theorem vec_sound (ρ : Oracle) (t : VTy) (o : VecOp) (s s' : State) (h : vecExpect t o s = some s') :
+    semVec ρ t o s = s' := by
+  cases t <;> cases o <;>
+    simp only [vecExpect, genericExpect, kitB, kitI, kitF, Lens.bvec, Lens.ivec, Lens.fvec, Lens.bool, Lens.int,
+      Lens.float, reduceCtorEq] at h <;>
+    simp only [semVec, semVecB, semVecI, semVecF, vecGet, modTop, elementwise, Lens.bvec, Lens.ivec, Lens.fvec,
+      pushInt, pushBool, pushFloat, vecIdx] <;>
+    (repeat' split at h) <;>
+    (try simp only [Option.some.injEq, reduceCtorEq] at h) <;>
+    (try subst h) <;>
+    simp_all [replicate_eq_tab, rotateIn_eq_spec, vecSetAt_eq_spec, append_eq_spec, map_eq_tab, notLoop_eq_spec,
+      i32Sum_eq_spec, boolIndex_eq_spec, count_eq, pushInt, pushBool, pushFloat]
+  all_goals first
+    | exact beq_list_i32 _ _
+    | exact filter_ne_eq _ _
+    | exact (append_eq_spec [] _).symm
+    | rfl
+    | (have := fromInt_eq_spec ‹Int32› ‹List Int32›; rw [Prod.ext_iff] at this; exact ⟨this.2, this.1⟩)
+    | (rw [divOverlap_eq_spec]; simp_all)
+
+
+/-! non-vacuity: the closed forms on concrete vectors -/
+example : rotateSpec [1, 2, 3] 9 = [2, 3, 9] := by decide
+example : setSpec [1, 2, 3] 7 9 = [1, 2, 9] := by decide
+example : setSpec [1, 2, 3] (-4) 9 = [9, 2, 3] := by decide
+example : boolIndexSpec [true, false, true] = [0, 2] := by decide
+example : fromIntSpec 2 [5, 6, 7] = ([6, 5], [7]) := by decide
+example : fromIntSpec 9 [5, 6, 7] = ([7, 6, 5], []) := by decide
+example : sumSpec [2147483647, 1] = -2147483648 := by decide
+example : notSpec [true, true, true] 1 = [true, false, false] := by decide
 
 /-! non-vacuity (unequal lengths, negative offset, top longer than second) -/
 example : overlapLoop (· + ·) [10, 20, 30] [1, 2, 3, 4, 5] (-3) = [14, 25, 30] := by decide
